@@ -6,6 +6,7 @@ import (
 	"go/token"
 	"go/types"
 	"math"
+	"regexp"
 	"sort"
 	"strconv"
 	"strings"
@@ -1099,12 +1100,30 @@ func wirePaddingOutcomes(wc *wireCtx, r *Report, prop string) {
 
 // ---- C07/C17: bracket balance of the emitted text ----
 
-type balance struct{ curly, round, square int }
+type balance struct{ curly, round, square, block int } // block: Lua function/if/for ... end nesting (Lua emitters only)
 
 func (a balance) add(b balance) balance {
-	return balance{a.curly + b.curly, a.round + b.round, a.square + b.square}
+	return balance{a.curly + b.curly, a.round + b.round, a.square + b.square, a.block + b.block}
 }
-func (a balance) String() string { return fmt.Sprintf("{%+d (%+d [%+d", a.curly, a.round, a.square) }
+func (a balance) String() string {
+	s := fmt.Sprintf("{%+d (%+d [%+d", a.curly, a.round, a.square)
+	if a.block != 0 {
+		s += fmt.Sprintf(" block%+d", a.block)
+	}
+	return s
+}
+
+var (
+	luaOpenRE    = regexp.MustCompile(`\bfunction\b|\bif\b|\bdo\b`)
+	luaCloseRE   = regexp.MustCompile(`\bend\b`)
+	luaCommentRE = regexp.MustCompile(`--[^\n]*`)
+)
+
+// luaBlocks: net count of Lua block openers (function, if, do) against `end` in a piece of text, comments removed.
+func luaBlocks(s string) int {
+	s = luaCommentRE.ReplaceAllString(s, "")
+	return len(luaOpenRE.FindAllString(s, -1)) - len(luaCloseRE.FindAllString(s, -1))
+}
 
 // textBalance: net bracket count of a piece of constant text.
 func textBalance(s string) balance {
@@ -1134,6 +1153,7 @@ type balanceCtx struct {
 	memo    map[*ssa.Function]*balance // nil entry while in progress / undecidable
 	state   map[*ssa.Function]int      // 0 unknown, 1 in progress, 2 done, 3 undecidable
 	assumed map[*ssa.Function]bool     // assumed balanced while in progress (recursion)
+	lua     bool                       // count Lua block keywords too
 	why     map[*ssa.Function]string
 }
 
@@ -1146,7 +1166,8 @@ func (bc *balanceCtx) valueBalance(v ssa.Value, depth int) (balance, bool) {
 	switch x := v.(type) {
 	case *ssa.Const:
 		if s, ok := constString(x); ok {
-			return textBalance(s), true
+			b := textBalance(s)
+			return b, true
 		}
 		return balance{}, true
 	case *ssa.BinOp:
@@ -1486,9 +1507,17 @@ func (bc *balanceCtx) funcBalance(fn *ssa.Function) *balance {
 // that produce whole files are balanced.
 func wireBracketBalance(w *World, wc *wireCtx, r *Report, prop string, roles map[string]bool) {
 	rule := prop + "/bracket-balance"
-	bc := &balanceCtx{w: w, m: wc.m, memo: map[*ssa.Function]*balance{}, state: map[*ssa.Function]int{}, why: map[*ssa.Function]string{}, assumed: map[*ssa.Function]bool{}}
+	newCtx := func(lua bool) *balanceCtx {
+		return &balanceCtx{w: w, m: wc.m, memo: map[*ssa.Function]*balance{}, state: map[*ssa.Function]int{}, why: map[*ssa.Function]string{}, assumed: map[*ssa.Function]bool{}, lua: lua}
+	}
+	ctxOf := map[bool]*balanceCtx{false: newCtx(false), true: newCtx(true)}
+	bc := ctxOf[false]
 	n := 0
 	for _, ga := range anchorTable {
+		if roles["only-lua"] && ga.Lang != "lua" {
+			continue
+		}
+		bc = ctxOf[ga.Lang == "lua"]
 		for _, fn := range wc.anchors[ga.Lang]["own"] {
 			if len(wc.m.sitesOf(fn)) == 0 {
 				continue
@@ -1512,6 +1541,10 @@ func wireBracketBalance(w *World, wc *wireCtx, r *Report, prop string, roles map
 	// every file handed back by a generator (an entry of its map[string][]byte) is balanced
 	nFiles := 0
 	for _, ga := range anchorTable {
+		if roles["only-lua"] && ga.Lang != "lua" {
+			continue
+		}
+		bc = ctxOf[ga.Lang == "lua"]
 		for _, fn := range wc.anchors[ga.Lang]["own"] {
 			cnt := 0
 			forEachInstr(fn, func(b *ssa.BasicBlock, ins ssa.Instruction) {
